@@ -33,6 +33,18 @@ CHECKS = {
     note="Trusted: TLC; harness/tsmrig.py; position-coded payload maps octets to segment tokens. Timeouts well-ordered (4*Tseg < Tapdu): "
          "the library's default device timeouts (finding F16) are not exercised.",
     technique="TLA+ spec (TSM.tla) + TLC exhaustive; state-graph replay; TLC trace validation of recorded real executions"),
+ "C07": dict(
+    category="model_checking",
+    text="APCI.tla transcribes clause 20.1.2-20.1.9 (eight PDU types incl. segmented variants) and the two code tables as operators; TLC "
+         "checks Dec(Enc(r)) = r, the layout, and round-down / never-up / tight / monotonic table properties over the flag x code-point x "
+         "{0,1,127,128,255} grid, capabilities 0..2000 and all strings <= 2 plus a class alphabet to length 4-6. Every grid case is encoded "
+         "and decoded by the real APDU classes and compared; random headers, random and mutated octet strings are run through the real "
+         "encode/decode, recorded and validated by TLC (Trace_APCI.tla) with the verdict policy written in TLA+.",
+    design_ref="DESIGN.md 5 (C07-C09)",
+    note="Trusted: TLC, my transcription of clause 20.1 in APCI.tla, the renderer from cases to constructor calls. Function-evaluation use "
+         "of TLC: exhaustive over the stated grid (quick: strength-2 array for the 5^4 octet product; thorough: full product), not all inputs. "
+         "Reserved bits ignored and trailing octets of header-only PDUs kept as payload, in spec and code alike.",
+    technique="TLA+ codec spec (APCI.tla) evaluated by TLC over the case grid; per-case replay into the real codec; TLC validation of recorded encode/decode calls"),
  "C09": dict(
     category="model_checking",
     text="BVLL.tla transcribes Annex J (header 0x81 / function / length = total octets, the twelve functions) as Enc/Dec operators; TLC "
